@@ -274,6 +274,26 @@ def marshal : List IceIn → Option (List Bytes)
     | some h, some t => some (h :: t)
     | _, _ => none
 
+/-- the credential attributes of one entry (everything after `rel="ice-server"`, when non-empty) -/
+def readCreds (url li : Bytes) : Option IceOut :=
+  match cutPrefix kUsername li with
+  | none => none
+  | some li =>
+    match readQuoted li with
+    | none => none
+    | some (user, li) =>
+      if user = [] then none
+      else
+        match cutPrefix kCredential li with
+        | none => none
+        | some li =>
+          match readQuoted li with
+          | none => none
+          | some (cred, li) =>
+            match cutPrefix kCredType li with
+            | none => none
+            | some li => if li = [] then some { url := url, user := user, cred := some cred } else none
+
 /-- one entry of `LinkHeaderUnmarshal`; `none` = error -/
 def unmarshal1 (li : Bytes) : Option IceOut :=
   match cutPrefix [60] li with
@@ -283,24 +303,7 @@ def unmarshal1 (li : Bytes) : Option IceOut :=
     | none => none
     | some (url, li) =>
       if li = [] then some { url := url, user := [], cred := none }
-      else
-        match cutPrefix kUsername li with
-        | none => none
-        | some li =>
-          match readQuoted li with
-          | none => none
-          | some (user, li) =>
-            if user = [] then none
-            else
-              match cutPrefix kCredential li with
-              | none => none
-              | some li =>
-                match readQuoted li with
-                | none => none
-                | some (cred, li) =>
-                  match cutPrefix kCredType li with
-                  | none => none
-                  | some li => if li = [] then some { url := url, user := user, cred := some cred } else none
+      else readCreds url li
 
 /-- `LinkHeaderUnmarshal`; `none` = error (the first bad entry fails the whole list) -/
 def unmarshalL : List Bytes → Option (List IceOut)
